@@ -195,7 +195,7 @@ def rows_of(run_id, events):
             r = {"e": "step", "t": e["t"], "i": e["i"], "op": op, "g": g, "first": first, "done": done,
                  "x": "-" if env_step else e.get("sub", "-"), "flags": flag_names(e["flags"]), "fin": fin,
                  "latch": bool(e["latch"]), "tag": tag_rec(e["tag"], msgs), "sameino": bool(e.get("tag_same_inode")),
-                 "changed": bool(e.get("tag_changed")), "oldfd": e.get("tag_oldfd") is not None, "wait": False, "sameq": True}
+                 "changed": bool(e.get("tag_changed")), "oldfd": e.get("tag_oldfd") is not None, "wait": False, "sameq": True, "answered": True, "anyfin": True}
             o = {"t": e["t"], "i": e["i"], "a": e["a"], "x": e["x"], "op": op, "g": g, "stage": e.get("stage", 0),
                  "flags": r["flags"], "fin": fin, "tag": r["tag"], "out": e["out"], "nowait": bool(e.get("nowait")),
                  "extra": bool(e.get("extra")), "exp": e.get("exp", "-"), "tag_raw": e["tag"], "tag_ino": e.get("tag_ino"),
@@ -207,12 +207,15 @@ def rows_of(run_id, events):
                     # clock readings taken around ProvisionQuery::new; every poll must carry exactly that
                     polls = e.get("polls", [])
                     lo, hi = int(e["created_between"][0]), int(e["created_between"][1])
-                    t0 = polls[0]["tick"] if polls else None
-                    ok0 = t0 is not None and t0.lstrip("-").isdigit() and lo <= int(t0) <= hi
-                    e = dict(e, q=str(t0 if ok0 else hi))
+                    ticks = [p_["tick"] for p_ in polls]
+                    ok = all(t_ is not None and t_.lstrip("-").isdigit() and lo <= int(t_) <= hi for t_ in ticks)
+                    e = dict(e, q=str(ticks[0] if ticks and ok else hi))
                     r["wait"] = True
-                    r["sameq"] = bool(ok0 and all(p_["tick"] == t0 for p_ in polls))
-                    o["polls"] = [[p_["tick"], p_["notify"]] for p_ in polls]
+                    r["sameq"] = bool(ok and len(set(ticks)) <= 1)
+                    r["answered"] = bool(e.get("answered", len(polls)))
+                    r["anyfin"] = bool(e.get("said_finished", True))
+                    o["polls"] = [[p_["tick"], p_["notify"], "dropped" if p_.get("dropped") else "answered"] for p_ in polls]
+                    o["env"] = e.get("env")
                 qv = int(e["q"])     # by value: a later poll of a waiting query repeats the tick of the first
                 q = 0 if qk in ("zero", "nohdr", "neg") or qv <= 0 else FUTURE if qk == "future" or qv > T[-1] + 10 ** 12 else abs_index(T, qv)
                 r["q"] = q
@@ -242,7 +245,9 @@ def schedule_of(obs, rows):
         elif o.get("stage") == 1:
             s_ = {"t": o["t"], "i": o["i"], "a": o["a"] if o["a"] in ("ask", "waitq", "wpoll") else START_OF.get(o["op"], "cont"), "x": o["x"]}
             if o["a"] == "waitq":
-                s_["polls"] = 4
+                s_["polls"] = 5
+                env_ = o.get("env") or {}
+                s_.update(drop=env_.get("drop_first", 0), late_ms=env_.get("late_ms", 0), down=bool(env_.get("down")))
             if o["op"] == "Q":
                 s_["x"] = "future" if o["q"] == FUTURE else "zero" if o["q"] == 0 else "past"
                 s_["q"] = {"q": o["q"]}
@@ -339,6 +344,8 @@ def signature(prop, rows, race_writers=0):
         return {"kind": "premature-finished"}
     if prop == "TagInPlace":
         return {"kind": "tag-modified-in-place"}
+    if prop == "WaitQueryUnanswered":
+        return {"kind": "waiting-query-finished-without-an-answer"}
     if prop == "WaitQueryInstant":
         return {"kind": "waiting-query-instant-not-constant"}
     if prop == "TagVanished":
@@ -417,8 +424,8 @@ def wait_histories():
         return [{"t": t, "i": 0, "a": a, "x": sub[t] if a != "tstate" else "-"}, {"t": t, "i": 0, "a": "drain", "x": "-"}]
     tick = {"t": "env", "i": 0, "a": "tick", "x": "-"}
 
-    def waitq(i, polls=4):
-        return [{"t": "q", "i": i, "a": "waitq", "x": "-", "polls": polls}]
+    def waitq(i, polls=4, **env):
+        return [dict({"t": "q", "i": i, "a": "waitq", "x": "-", "polls": polls}, **env)]
     ask = [{"t": "q", "i": 7, "a": "ask", "x": "past", "q": {"q": 1}}]
     out = []
     out.append(whole("ls", "upd") + whole("rd", "upd") + [tick] + whole("kk", "tstate") + [tick] + waitq(1) + ask + [tick] + waitq(2, 2))
@@ -426,6 +433,14 @@ def wait_histories():
     out.append(whole("ls", "upd") + whole("rd", "upd") + whole("kk", "upd") + [tick, tick] + waitq(1) + ask)
     out.append(whole("ls", "upd") + [tick] + waitq(1, 3) + whole("rd", "upd") + waitq(2, 2))
     out.append(whole("ls", "upd") + [{"t": "env", "i": 0, "a": "latch", "x": "on"}, tick] + waitq(1, 2))
+    # the listener is not reachable for the first polls (no answer / connection refused), then reachable; or never
+    out.append(whole("ls", "upd") + [tick] + waitq(1, 5, drop=1) + ask)
+    out.append(whole("ls", "upd") + whole("rd", "upd") + [tick] + waitq(1, 5, drop=2) + waitq(2, 3))
+    out.append(whole("ls", "upd") + [tick] + waitq(1, 5, late_ms=150) + ask)
+    out.append(whole("ls", "upd") + [tick] + waitq(1, 3, down=True) + waitq(2, 1, down=True) + ask)
+    out.append([tick] + waitq(1, 3, down=True) + whole("ls", "upd") + waitq(2, 2))
+    out.append(whole("ls", "upd") + whole("rd", "upd") + [tick] + whole("kk", "tstate") + [tick] + waitq(1, 5, drop=1))
+    out.append(whole("ls", "upd") + [{"t": "env", "i": 0, "a": "latch", "x": "on"}, tick] + waitq(1, 4, drop=1))
     return out
 
 
@@ -552,7 +567,11 @@ def run(c):
 
     # 1. the design, exhaustively -----------------------------------------------------------------------------------
     acts = ["Tick", "SetLatch", "Upd", "Reset", "TState", "SetFin", "WState", "QFin", "QState", "QChan"]
-    c.tlc("Provision", "Provision_q.cfg", workers=8, required_actions=acts + ["WPoll"], timeout=900)
+    c.tlc("Provision", "Provision_q.cfg", workers=8, required_actions=acts + ["WPoll", "QRefused", "WRefused"], timeout=900)
+    # a design variant TLC must reject: a poll without an answer makes the waiting client return 'finished'
+    vl = c.tlc("Provision", "Provision_variant_l.cfg", workers=4, coverage=False, expect_ok=False, timeout=300)
+    if vl.invariant_violated != "QueryTruth":
+        raise tlcmod.TlcError("the design variant 'a refused poll makes the answer finished' was not rejected")
     c.tlc("Provision", "Provision_tag.cfg", workers=8, required_actions=["Upd", "TState", "SetFin", "WState", "FileStep"],
           timeout=600)
     if thorough:
